@@ -37,6 +37,10 @@ CHECKS = {
          "Held on 60 (quick) / 600 (thorough) seeded scenarios in which the real PoC miner ran against scripted templates, proof sets from bit-length-24 reference tables, competing tips and Stop() calls; every block it handed to ProcessBlock was re-derived with the chain library's VerifyProof/VerifiedQuality and the scripted target function and checked for proof, binding, strict quality>target, earliest slot / best proof / look-ahead, header target and timestamp, signature, submission time, single success per height and abandonment. Not covered: behaviour during the timestamp wait after a proof is chosen.",
          "the miner reads time.Now() itself (no injectable clock): time is an input of the system under test, scenarios with margins under 1.5 s are dropped, not judged; trusts mass-core poc.VerifyProof/VerifiedQuality and pocec",
          "DESIGN.md §3 C08"),
+ "C09": ("exploration", "gate-scheduled real keepers (H3 hook points as gates, scripted plot backend through the exported registry) + online trace specification over quiescent observations",
+         "The harness is the scheduler of the plotter goroutine of the real v1 and v2 keepers: every move is one API action (single or bulk), one plotter gate release, a scripted plot outcome, or keeper stop/start, and after every move all state queries are read at a quiescent point and checked: flag queries partition the listing, every state change is allowed by the documented table for the event that happened, at most one space plots, a space is plotted or mined only while a request is outstanding, exactly the mining spaces are offered to the miner, completion/abort lead to the documented states. Held = on the (sequence, schedule) pairs explored; the stale-request classes are listed findings.",
+         "the gates sit between critical sections where the Go scheduler could preempt anyway; the pending-channel length is read by reflection at quiescent points; scripted plots stand in for real plotting (real plots: C07/C10/C11/C13)",
+         "DESIGN.md §3 C09"),
  "C11": ("exploration", "seeded plot-directory/history exploration of the real keeper with hook-gated plotter (H3), per-operation file-system diff oracle, independent reference indexer, strace attribution of unlink/rename/truncate (thorough)",
          "Real keeper, real plot files and a real wallet over seeded plot directories (27 file classes across 1-3 directories) and gated action histories: a full directory listing is compared before and after every operation (only an accepted Delete, the end-of-plot removal of map A and the documented legacy rename may remove or rename plot files), Remove/Delete must be refused while plotting or mining, and every start-up/restart index is judged file by file against an independent reference indexer (header vs name, wallet key and ordinal, duplicates, recorded progress). Held = on the scenarios executed; file creation at start-up is observed, not judged (the statement forbids deletion).",
          "tables of bit length >= 24 are fabricated headers / sparse files, so 'never serves proofs from rejected files' is observed as absence of a proof object; trusts the harness reference indexer (cross-checked against the generator's own expectation in every scenario)",
